@@ -33,7 +33,7 @@ pub fn plan(prop: &str) -> Vec<PlanEntry> {
         "C13" => vec![p("ebr", 3), p("ebr-churn", 2), p("ebr-longcs", 3), p("ebr-private", 1), p("rc-mixed", 1), p("dir-t9", 1), p("dir-t16", 1), p("chain-mid", 1), p("dir-t2", 1), p("dir-t14", 1)],
         "C14" => vec![p("ebr", 2), p("ebr-churn", 3), p("ebr-longcs", 2), p("dir-t12", 2), p("guards", 1), p("rc-mixed", 1), p("rc-bulk", 1), p("dir-t6", 1)],
         "C15" => vec![p("ebr", 3), p("ebr-churn", 2), p("ebr-private", 2), p("tls", 1), p("dir-t13", 1), p("dir-t18", 1)],
-        "C16" => vec![p("guards", 4), p("ebr", 1), p("ebr-longcs", 2), p("rc-mixed", 1), p("dir-t6", 1), p("dir-t8", 1), p("dir-t12", 1), p("dir-t17", 1)],
+        "C16" => vec![p("guards", 4), p("ebr", 1), p("ebr-longcs", 2), p("rc-mixed", 1), p("dir-t6", 1), p("dir-t8", 1), p("dir-t12", 1), p("dir-t17", 1), p("dir-t19", 1)],
         "C17" => vec![p("queue", 1)],
         "C18" => vec![p("list", 3), p("ebr-churn", 2), p("dir-t12", 1)],
         "C20" => vec![p("tls", 6), p("ebr-churn", 2), p("dir-t10", 1), p("dir-t11", 1), p("dir-t13", 1), p("dir-t15", 1)],
